@@ -6,7 +6,8 @@ From J5V.model Require Import RulesDecl RulesWrite RulesRead RulesEnum RulesSpec
 From J5V.gen Require Id62Gen RulesGen.
 From J5V.model Require Import ProtoPrint ProtoPrintFile ProtoParseFile.
 From J5V.proofs Require Import RulesProofs RulesReadProofs RulesGenProofs RulesReadGenProofs.
-From J5V.proofs Require Import ProtoPrintFileSemProofs ProtoPrintFileFullProofs RulesTextProofs.
+From J5V.model Require Import RulesView RulesTextModel ProtoPrintFileWf.
+From J5V.proofs Require Import ProtoPrintFileSemProofs ProtoPrintFileFullProofs RulesViewProofs RulesTextProofs.
 Import ListNotations.
 Local Open Scope N_scope.
 
@@ -66,6 +67,21 @@ Theorem C04_property :
 Proof. exact c04_prop. Qed.
 Print Assumptions C04_property.
 
+(* root schemas — for every object and every oneof: kind, name, description and the
+   properties (norm_root: kind / name / description as declared, properties in normal
+   form); exact as for properties *)
+Theorem C04_root : forall env d o,
+  zero_std env = true -> rt_root d = true ->
+  write_root env d = Ok o -> read_root env o = Ok (norm_root env d).
+Proof. exact c04_root. Qed.
+Print Assumptions C04_root.
+
+Theorem C04_root_exact : forall env d o,
+  zero_std env = true -> write_root env d = Ok o ->
+  (read_root env o = Ok (norm_root env d) <-> rt_root d = true).
+Proof. exact c04_root_exact. Qed.
+Print Assumptions C04_root_exact.
+
 (* second clause (the printed .proto text): reflection sees a field only through
    [c04_proj] (name, number, kind, label, optional keyword, the three annotations,
    the key annotation, the comment). If print + parse preserves that view of
@@ -84,12 +100,11 @@ Print Assumptions C04_text_clause.
    annotation record off a field descriptor that depends on the field's content only
    (not on source positions, not on the order of its options). Messages must list
    their elements in print order (what the compiler produces).
-   What is left open: the concrete [view] (decoding the option trees of
-   (buf.validate.field), (j5.ext.v1.field), (j5.list.v1.field), (j5.ext.v1.key) into
-   [fout]) and with it the tie "view of the dumped descriptor = the annotations the
-   harness dumps"; and what the tool model leaves open itself (characters between
-   tokens; map value-field options are not in its descriptors at all — the known
-   finding lives there). *)
+   The concrete view is C04_text_concrete below. What stays open is what the tool
+   model leaves open itself: characters between tokens, and options on the value
+   field of a map entry, which are not in its descriptors at all (the known finding
+   lives there: the correspondence compares the decoder with the harness dump
+   modulo the key annotation of map fields). *)
 Theorem C04_text_composed :
   forall (view : dfield -> fout),
     (forall f f', field_equiv f f' -> c04_proj (view f) = c04_proj (view f')) ->
@@ -104,6 +119,47 @@ Theorem C04_text_composed :
             read_object env (map view (body_fields body')) = read_object env (map view (body_fields body)).
 Proof. exact c04_text_composed. Qed.
 Print Assumptions C04_text_composed.
+
+(* ... and with the concrete view [RulesView.view_field]: a decoder of the option trees
+   of (buf.validate.field), (j5.ext.v1.field), (j5.list.v1.field), (j5.ext.v1.key) into
+   the reader's annotation record, proved to depend on the content of the field only
+   (view_field_content) and compared on every run, for every compiled field, with the
+   annotations the harness dumps from the real descriptor (stream C04View). No
+   parameter is left: print a well-formed descriptor file, parse the tokens, decode
+   each field of each message, read — the same properties as before printing. *)
+Theorem C04_text_concrete : forall env imp D,
+  wf_dfile imp D ->
+  exists D',
+    parse_file_tokens imp (print_file_tokens (to_symtab (dfile_symtab imp D)) D) = Some D' /\
+    forall k c n o body,
+      In (DMsg k c n o body) (d_body D) -> in_print_order body ->
+      exists k' o' body',
+        In (DMsg k' c n o' body') (d_body D') /\
+        read_object env (map view_field (body_fields body')) = read_object env (map view_field (body_fields body)).
+Proof. exact c04_text_concrete. Qed.
+Print Assumptions C04_text_concrete.
+
+(* ... and with the two hypotheses about the descriptor DECIDED: [wf_dfile_b] (family
+   tool's checker of the printer / parser theorem's domain, sound by
+   wf_dfile_b_sound) and [file_in_order_b] (bodies listed in print order). The C04File
+   stream evaluates both on the real descriptor of every generated compile unit, and
+   compares [RulesTextModel.read_msg_text] (this chain, computed) with what the real
+   reflector reads from the really printed and re-parsed text. *)
+Theorem C04_text_checked : forall env imp D,
+  wf_dfile_b imp D = true -> file_in_order_b D = true ->
+  exists D',
+    parse_file_tokens imp (print_file_tokens (to_symtab (dfile_symtab imp D)) D) = Some D' /\
+    forall k c n o body,
+      In (DMsg k c n o body) (d_body D) ->
+      exists k' o' body',
+        In (DMsg k' c n o' body') (d_body D') /\
+        read_object env (map view_field (body_fields body')) = read_object env (map view_field (body_fields body)).
+Proof. exact c04_text_checked. Qed.
+Print Assumptions C04_text_checked.
+
+Theorem C04_view_reads_content : forall f f', field_equiv f f' -> view_field f = view_field f'.
+Proof. exact view_field_content. Qed.
+Print Assumptions C04_view_reads_content.
 
 (* the hypothesis on the view is satisfiable by one that reads real content *)
 Theorem C04_text_view_exists :
